@@ -251,6 +251,21 @@ def run(prog, run):
             else:
                 run.violation(r3, 'QXmppClient::sendSensitive#toXml-mode', f.loc(i),
                               'the encrypted message is serialized with mode %s' % (f.fmt(n['args'][1]) if len(n['args']) > 1 else 'default (SceAll)'))
+    # a message handed to the wire as an object is serialized by QXmppPacket with the default mode (SceAll)
+    for f in prog.closure(ss):
+        for i, n in f.all_nodes('construct'):
+            if n.get('cls') != 'QXmppPacket' or not n.get('args'):
+                continue
+            a = f.nodes[f.skip(n['args'][0])]
+            t = (a.get('t') or '')
+            if a['k'] == 'call' and a.get('op') == '*' and a.get('opargs'):
+                t = t or (f.nodes[f.skip(a['opargs'][0])].get('t') or '')
+            if 'QXmppMessage' in t:
+                found += 1
+                run.instance(r3)
+                run.violation(r3, 'QXmppClient::sendSensitive#message-sent-as-object', f.loc(i),
+                              'the encrypted message is handed to QXmppPacket as an object (%s) and serialized with the default mode SceAll: every plaintext field the '
+                              'encryption extension left in it goes on the wire next to the ciphertext' % t[:50])
     if not found:
         raise AnalysisBroken('C17.R3: QXmppMessage::toXml call not found in sendSensitive')
     mp = [f for f in prog.fns_named('QXmpp::Private::MessagePipeline::process') if len(f.params) == 4]
